@@ -1,2 +1,68 @@
+use crate::vj;
+use libhaystack::val::kind::HaystackKind;
+use libhaystack::val::*;
 use serde_json::{json, Value as J};
-pub fn run(api: &str, _case: &J) -> J { json!({"bad_api": api}) }
+
+fn preds(v: &Value) -> Vec<&'static str> {
+    let all: [(&str, bool); 18] = [("is_null", v.is_null()), ("is_remove", v.is_remove()), ("is_marker", v.is_marker()), ("is_bool", v.is_bool()),
+        ("is_na", v.is_na()), ("is_number", v.is_number()), ("is_str", v.is_str()), ("is_ref", v.is_ref()), ("is_symbol", v.is_symbol()),
+        ("is_uri", v.is_uri()), ("is_date", v.is_date()), ("is_time", v.is_time()), ("is_datetime", v.is_datetime()), ("is_coord", v.is_coord()),
+        ("is_xstr", v.is_xstr()), ("is_list", v.is_list()), ("is_dict", v.is_dict()), ("is_grid", v.is_grid())];
+    all.iter().filter(|p| p.1).map(|p| p.0).collect()
+}
+
+fn conversions(v: &Value) -> Vec<&'static str> {
+    let mut out = vec![];
+    macro_rules! t { ($ty:ty, $name:literal, $var:ident) => {
+        if let Ok(x) = <$ty>::try_from(v) { out.push($name); if Value::$var(x.clone()) != *v { out.push(concat!($name, "-payload-differs")); } }
+    }; }
+    t!(Bool, "Bool", Bool); t!(Number, "Number", Number); t!(Str, "Str", Str); t!(Ref, "Ref", Ref); t!(Uri, "Uri", Uri); t!(Symbol, "Symbol", Symbol);
+    t!(Date, "Date", Date); t!(Time, "Time", Time); t!(DateTime, "DateTime", DateTime); t!(Coord, "Coord", Coord); t!(XStr, "XStr", XStr);
+    t!(Dict, "Dict", Dict); t!(Grid, "Grid", Grid);
+    if let Ok(x) = List::try_from(v) { out.push("Vec"); if Value::List(x) != *v { out.push("Vec-payload-differs"); } }
+    if Marker::try_from(v).is_ok() { out.push("Marker"); }
+    if Na::try_from(v).is_ok() { out.push("Na"); }
+    if Remove::try_from(v).is_ok() { out.push("Remove"); }
+    out
+}
+
+fn getters(d: &Dict, key: &str) -> Vec<&'static str> {
+    let mut out = vec![];
+    macro_rules! g { ($m:ident, $name:literal) => { if d.$m(key).is_some() { out.push($name); } }; }
+    g!(get_bool, "get_bool"); g!(get_num, "get_num"); g!(get_str, "get_str"); g!(get_xstr, "get_xstr"); g!(get_ref, "get_ref"); g!(get_uri, "get_uri");
+    g!(get_symbol, "get_symbol"); g!(get_date, "get_date"); g!(get_time, "get_time"); g!(get_date_time, "get_date_time"); g!(get_coord, "get_coord");
+    g!(get_dict, "get_dict"); g!(get_list, "get_list"); g!(get_grid, "get_grid");
+    if d.has(key) { out.push("has"); }
+    if d.has_marker(key) { out.push("has_marker"); }
+    if d.has_na(key) { out.push("has_na"); }
+    if d.has_remove(key) { out.push("has_remove"); }
+    out
+}
+
+pub fn run(api: &str, case: &J) -> J {
+    match api {
+        "accessors" => {
+            let v = vj::from(&case["v"]);
+            let kind = HaystackKind::from(&v);
+            let mut d = Dict::new();
+            d.insert("k".into(), v.clone());
+            json!({"ok": {"preds": preds(&v), "kind": kind as u8, "kind_name": <&str>::from(kind), "conv": conversions(&v),
+                          "getters": getters(&d, "k"), "getters_missing": getters(&d, "zz")}})
+        }
+        "kind_code" => {
+            let c = case["code"].as_u64().unwrap() as u8;
+            match HaystackKind::try_from(c) { Ok(k) => json!({"ok": {"code": k as u8, "name": <&str>::from(k), "display": k.to_string()}}), Err(_) => json!({"ok": null}) }
+        }
+        "kind_name" => {
+            let b = vj::unhex(case["in"].as_str().unwrap());
+            let t = match std::str::from_utf8(&b) { Ok(t) => t, Err(_) => return json!({"bad_case": "utf8"}) };
+            match HaystackKind::try_from(t) { Ok(k) => json!({"ok": {"code": k as u8}}), Err(_) => json!({"ok": null}) }
+        }
+        "grid_from_dicts" => {
+            let rows: Vec<Dict> = case["rows"].as_array().unwrap().iter().map(vj::dict_from).collect();
+            let g = if case["meta"].is_null() { Grid::make_from_dicts(rows) } else { Grid::make_from_dicts_with_meta(rows, vj::dict_from(&case["meta"])) };
+            json!({"ok": vj::to(&Value::Grid(g))})
+        }
+        other => crate::apis6::run(other, case),
+    }
+}
